@@ -419,12 +419,23 @@ func (r *RegionScatterer) selectAvailableLeaderStores(group string, peers map[ui
 	for storeID := range peers {
 		store := r.cluster.GetStore(storeID)
 		engine := store.GetLabelValue(filter.EngineKey)
-		if len(engine) < 1 {
+		// The operator is built with EnableForceTargetLeader, which skips the store state
+		// filter: keep stores that must not hold leaders (reject-leader label property) out here.
+		if len(engine) < 1 && !r.cluster.GetOpts().CheckLabelProperty(opt.RejectLeader, store.GetLabels()) {
 			leaderCandidateStores = append(leaderCandidateStores, storeID)
 		}
 	}
 	minStoreGroupLeader := uint64(math.MaxUint64)
 	id := uint64(0)
+	if len(leaderCandidateStores) == 0 {
+		// every candidate rejects leaders: fall back to all ordinary stores rather than to
+		// the random choice of CreateScatterRegionOperator
+		for storeID := range peers {
+			if len(r.cluster.GetStore(storeID).GetLabelValue(filter.EngineKey)) < 1 {
+				leaderCandidateStores = append(leaderCandidateStores, storeID)
+			}
+		}
+	}
 	for _, storeID := range leaderCandidateStores {
 		storeGroupLeaderCount := context.selectedLeader.Get(storeID, group)
 		if minStoreGroupLeader > storeGroupLeaderCount {
